@@ -1,6 +1,6 @@
 """C10 - browser refresh queries: schedule arithmetic, one live entry per instance, rate limit, the pass timer."""
 import z3
-from pyvc.contracts import Loop
+from pyvc.contracts import Loop, View
 from pyvc.core import Sc, NoneV, Cont, FieldLoc, PyConst
 from contracts import records, loop_model, heap_model
 
@@ -42,7 +42,7 @@ def build(R):
     R.shape('QueryScheduler', {'_zc': 'Zeroconf', '_types': 'set[str]', '_min_time_between_queries_millis': 'int',
                                '_loop': 'opt[EventLoop]', '_startup_queries_sent': 'int',
                                '_next_scheduled_for_alias': 'dict[str, %s]' % SQ, '_query_heap': 'list[%s]' % SQ,
-                               '_next_run': 'opt[TimerHandle]', '_clock_resolution_millis': 'real',
+                               '_next_run': 'opt[TimerHandle]', '_next_run_not_before_millis': 'real', '_clock_resolution_millis': 'real',
                                '_first_random_delay_interval': 'tuple[int, int]'})
     R.contract('zeroconf._dns', 'DNSRecord.get_expiration_time', 'C05', params={'percent': 'int'}, returns='real',
                ensures=['result == self.created + percent * self.ttl * 10'], trusted=True,
@@ -61,21 +61,53 @@ def build(R):
            '        and s._next_scheduled_for_alias[lower(s._query_heap[j].alias)] is s._query_heap[j]))) and '
            'forall("j:int, m:int", lambda j, m: implies(0 <= j and j < m and m < len(s._query_heap), s._query_heap[j] is not s._query_heap[m])) and '
            'forall("j:int", lambda j: implies(0 <= j and j < len(s._query_heap), s._query_heap[0].when_millis <= s._query_heap[j].when_millis)) and '
-           's._min_time_between_queries_millis >= 0 and s._clock_resolution_millis >= 0' % (SQ, SQ))
+           's._min_time_between_queries_millis >= 0 and s._clock_resolution_millis >= 0 and s._startup_queries_sent >= 0 and '
+           'implies(s._next_run is not None, s._loop is not None and allocated(s._next_run))' % (SQ, SQ))
+    # the pass timer (DESIGN 3.3 WF_sched): the handle in _next_run is a pending wake-up of this scheduler - during start-up for
+    # the next start-up pass, afterwards for a refresh pass that is due (a) not before the minimum spacing after the previous
+    # pass and (b) no later than the earliest scheduled query or that spacing instant, whichever is later
+    R.spec('armed', [('s', 'QueryScheduler')], 'bool',
+           's._next_run is not None and not s._next_run.cancelled and exists("p:int", lambda p: 0 <= p and p < len(TIMERS.events) '
+           '   and TIMERS.events[p][3] is s._next_run and TIMERS.events[p][1] is s '
+           '   and ((s._startup_queries_sent < 4 and TIMERS.events[p][2] == mid("_process_startup_queries")) or '
+           '        (s._startup_queries_sent >= 4 and TIMERS.events[p][2] == mid("_process_ready_types") '
+           '         and s._next_run_not_before_millis <= TIMERS.events[p][0] '
+           '         and (len(s._query_heap) == 0 or TIMERS.events[p][0] <= s._query_heap[0].when_millis '
+           '              or TIMERS.events[p][0] <= s._next_run_not_before_millis))))')
+    # no second chain: every other wake-up ever armed for this scheduler is cancelled or already due (it has fired)
+    R.spec('solo', [('s', 'QueryScheduler')], 'bool',
+           'forall("p:int", lambda p: implies(0 <= p and p < len(TIMERS.events), TIMERS.events[p][3] is not None and cls_is(TIMERS.events[p][3], TimerHandle) and allocated(TIMERS.events[p][3]))) and '
+           'forall("p:int", lambda p: implies(0 <= p and p < len(TIMERS.events) and TIMERS.events[p][1] is s '
+           '   and TIMERS.events[p][3] is not s._next_run, TIMERS.events[p][3].cancelled or TIMERS.events[p][0] <= CLOCK.now))')
+    # the wake-up in _next_run is the one that fired (A5: a callback runs no earlier than its due time)
+    R.spec('fired', [('s', 'QueryScheduler')], 'bool',
+           's._next_run is not None and forall("p:int", lambda p: implies(0 <= p and p < len(TIMERS.events) '
+           '   and TIMERS.events[p][3] is s._next_run, TIMERS.events[p][0] <= CLOCK.now))')
     MAPF = ('forall("a:str", lambda a: implies(a != %s, self._next_scheduled_for_alias.has(a) == old(self._next_scheduled_for_alias.has(a)) '
             '   and implies(self._next_scheduled_for_alias.has(a), self._next_scheduled_for_alias[a] is old(self._next_scheduled_for_alias[a]))))')
     OBJF = ('forall("q:%s", lambda q: implies(old(allocated(q)), q.alias == old(q.alias) and q.name == old(q.name) and q.ttl == old(q.ttl) '
             '   and q.expire_time_millis == old(q.expire_time_millis) and q.when_millis == old(q.when_millis)))' % SQ)
     CANF = 'forall("q:%s", lambda q: implies(old(allocated(q)) and q is not %%s, q.cancelled == old(q.cancelled)))' % SQ
     HEAPF = 'forall("q:%s", lambda q: in_heap(self, q) == (old(in_heap(self, q)) or q is %%s))' % SQ
-    MOD_PUSH = ['self._next_scheduled_for_alias', 'self._query_heap']
+    MOD_PUSH = ['self._next_scheduled_for_alias', 'self._query_heap', 'self._next_run', 'TIMERS.events', 'TimerHandle.cancelled[*]']
+    T0 = 'old(len(TIMERS.events))'
+    Q0 = 'old(len(QLOG.events))'
+    # what scheduling a query does to the pass timer: keeps it sufficient (re-arming it for an earlier deadline, F8),
+    # never starts a second chain, and does nothing at all while no wake-up is pending (inside a pass / stopped)
+    TIMF = ['implies(old(armed(self)), armed(self))', 'implies(old(solo(self)), solo(self))',
+            'implies(old(self._next_run) is None, self._next_run is None and len(TIMERS.events) == %s)' % T0,
+            'implies(old(self._next_run) is not None, self._next_run is not None)',
+            'len(TIMERS.events) >= %s' % T0,
+            'forall("p:int", lambda p: implies(0 <= p and p < %s, TIMERS.events[p] == old(TIMERS.events[p])))' % T0,
+            'forall("p:int", lambda p: implies(%s <= p and p < len(TIMERS.events), TIMERS.events[p][1] is self and TIMERS.events[p][3] is self._next_run))' % T0,
+            'forall("h:TimerHandle", lambda h: implies(old(allocated(h)) and h is not old(self._next_run), h.cancelled == old(h.cancelled)))']
     R.contract(B, 'QueryScheduler._schedule_ptr_query', PROP, params={'scheduled_query': SQ},
                requires=['sq_ok(self)', 'scheduled_query is not None and allocated(scheduled_query) and not scheduled_query.cancelled',
                          'not in_heap(self, scheduled_query)', 'not self._next_scheduled_for_alias.has(lower(scheduled_query.alias))'],
                modifies=MOD_PUSH,
                ensures=['sq_ok(self)', 'self._next_scheduled_for_alias.has(lower(scheduled_query.alias)) '
                         'and self._next_scheduled_for_alias[lower(scheduled_query.alias)] is scheduled_query',
-                        MAPF % 'lower(scheduled_query.alias)', HEAPF % 'scheduled_query', 'len(self._query_heap) == old(len(self._query_heap)) + 1'])
+                        MAPF % 'lower(scheduled_query.alias)', HEAPF % 'scheduled_query', 'len(self._query_heap) == old(len(self._query_heap)) + 1'] + TIMF)
     NEW = 'self._next_scheduled_for_alias[lower(pointer.alias)]'
     R.contract(B, 'QueryScheduler._schedule_ptr_refresh', PROP,
                params={'pointer': 'DNSPointer', 'expire_time_millis': 'real', 'refresh_time_millis': 'real'},
@@ -85,7 +117,7 @@ def build(R):
                         '%s.when_millis == refresh_time_millis and %s.expire_time_millis == expire_time_millis '
                         'and %s.name == pointer.name and %s.alias == pointer.alias and not %s.cancelled' % (NEW, NEW, NEW, NEW, NEW),
                         '%s.ttl <= pointer.ttl and pointer.ttl < %s.ttl + 1' % (NEW, NEW),
-                        MAPF % 'lower(pointer.alias)', HEAPF % NEW, OBJF, CANF % 'None'])
+                        MAPF % 'lower(pointer.alias)', HEAPF % NEW, OBJF, CANF % 'None'] + TIMF)
     R.contract(B, 'QueryScheduler.cancel_ptr_refresh', PROP, params={'pointer': 'DNSPointer'},
                requires=['sq_ok(self)', 'pointer is not None'],
                modifies=['self._next_scheduled_for_alias', SQ + '.cancelled[*]'],
@@ -96,7 +128,8 @@ def build(R):
                         'forall("q:%s", lambda q: implies(not (old(self._next_scheduled_for_alias.has(lower(pointer.alias))) '
                         '   and q is old(self._next_scheduled_for_alias[lower(pointer.alias)])), q.cancelled == old(q.cancelled)))' % SQ,
                         # ... whatever the spelling of the instance name in the goodbye (F10)
-                        'forall("q:%s", lambda q: implies(in_heap(self, q) and lower(q.alias) == lower(pointer.alias), q.cancelled))' % SQ])
+                        'forall("q:%s", lambda q: implies(in_heap(self, q) and lower(q.alias) == lower(pointer.alias), q.cancelled))' % SQ,
+                        'implies(old(armed(self)), armed(self))', 'implies(old(solo(self)), solo(self))'])
     R75 = '(pointer.created + 750 * pointer.ttl)'
     CUR = 'old(self._next_scheduled_for_alias[lower(pointer.alias)])'
     KEEP = ('(old(self._next_scheduled_for_alias.has(lower(pointer.alias))) and -self._min_time_between_queries_millis <= %s - old(self._next_scheduled_for_alias[lower(pointer.alias)].when_millis) '
@@ -115,7 +148,7 @@ def build(R):
                         '   and forall("q:%s", lambda q: implies(old(allocated(q)) and not (old(self._next_scheduled_for_alias.has(lower(pointer.alias))) and q is %s), '
                         '        q.cancelled == old(q.cancelled))))' % (KEEP, NEW, NEW, R75, NEW, NEW, NEW, NEW, CUR, SQ, CUR),
                         # refreshed under another spelling of the instance name: still one live entry for the instance (F10)
-                        'forall("q:%s", lambda q: implies(in_heap(self, q) and lower(q.alias) == lower(pointer.alias) and not q.cancelled, q is %s))' % (SQ, NEW)])
+                        'forall("q:%s", lambda q: implies(in_heap(self, q) and lower(q.alias) == lower(pointer.alias) and not q.cancelled, q is %s))' % (SQ, NEW)] + TIMF)
     NQ = 'self._next_scheduled_for_alias[lower(query.alias)]'
     LATE = '(now_millis + 100 * query.ttl >= query.expire_time_millis)'
     R.contract(B, 'QueryScheduler.schedule_rescue_query', PROP,
@@ -130,13 +163,12 @@ def build(R):
                         '   and %s.when_millis == now_millis + 100 * query.ttl and %s.expire_time_millis == query.expire_time_millis '
                         '   and %s.name == query.name and %s.ttl == query.ttl and %s.alias == query.alias and not %s.cancelled '
                         '   and len(self._query_heap) == old(len(self._query_heap)) + 1 '
-                        '   and forall("q:%s", lambda q: in_heap(self, q) == (old(in_heap(self, q)) or q is %s)))' % (LATE, NQ, NQ, NQ, NQ, NQ, NQ, NQ, SQ, NQ)])
-    T0 = 'old(len(TIMERS.events))'
-    Q0 = 'old(len(QLOG.events))'
+                        '   and forall("q:%s", lambda q: in_heap(self, q) == (old(in_heap(self, q)) or q is %s)))' % (LATE, NQ, NQ, NQ, NQ, NQ, NQ, NQ, SQ, NQ)] + TIMF)
     R.contract(B, 'QueryScheduler.start', PROP, params={'loop': 'EventLoop'},
-               requires=['loop is not None', 'self._first_random_delay_interval[0] <= self._first_random_delay_interval[1]'],
+               requires=['loop is not None', 'self._first_random_delay_interval[0] <= self._first_random_delay_interval[1]',
+                         'sq_ok(self)', 'self._next_run is None', 'self._startup_queries_sent == 0'],
                modifies=['self._loop', 'self._next_run', 'TIMERS.events', 'TimerHandle.cancelled[*]'],
-               ensures=['self._loop is loop', 'len(TIMERS.events) == %s + 1' % T0,
+               ensures=['self._loop is loop', 'sq_ok(self)', 'armed(self)', 'implies(old(solo(self)), solo(self))', 'len(TIMERS.events) == %s + 1' % T0,
                         'CLOCK.now + self._first_random_delay_interval[0] <= TIMERS.events[%s][0] and TIMERS.events[%s][0] <= CLOCK.now + self._first_random_delay_interval[1]' % (T0, T0),
                         'TIMERS.events[%s][1] is self and TIMERS.events[%s][2] == mid("_process_startup_queries") and TIMERS.events[%s][3] is self._next_run' % (T0, T0, T0),
                         'self._next_run is not None and not self._next_run.cancelled',
@@ -147,13 +179,18 @@ def build(R):
                ensures=['sq_ok(self)', 'self._next_run is None', 'len(self._query_heap) == 0',
                         'forall("a:str", lambda a: not self._next_scheduled_for_alias.has(a))',
                         'implies(old(self._next_run) is not None, old(self._next_run).cancelled)',
-                        'forall("h:TimerHandle", lambda h: implies(h is not old(self._next_run), h.cancelled == old(h.cancelled)))'])
+                        'forall("h:TimerHandle", lambda h: implies(h is not old(self._next_run), h.cancelled == old(h.cancelled)))',
+                        'implies(old(solo(self)), solo(self))'])
     K = 'old(self._startup_queries_sent)'
     R.contract(B, 'QueryScheduler._process_startup_queries', PROP,
-               requires=['self._loop is not None and self._zc is not None', 'self._startup_queries_sent >= 0',
-                         'self._min_time_between_queries_millis >= 0'],
-               modifies=['self._startup_queries_sent', 'self._next_run', 'TIMERS.events', 'TimerHandle.cancelled[*]', 'QLOG.events'],
+               requires=['self._loop is not None and self._zc is not None', 'sq_ok(self)', 'self._startup_queries_sent < 4'],
+               modifies=['self._startup_queries_sent', 'self._next_run', 'self._next_run_not_before_millis', 'TIMERS.events',
+                         'TimerHandle.cancelled[*]', 'QLOG.events'],
                ensures=[
+                   'sq_ok(self)',
+                   # keeps running: a wake-up is pending again, the only one of this scheduler (given that the one that fired was)
+                   'implies(not self._zc.done, armed(self))',
+                   'implies(not self._zc.done and old(solo(self)) and old(fired(self)), solo(self))',
                    # the instance was closed under the browser: the chain ends silently
                    'implies(self._zc.done, len(TIMERS.events) == %s and len(QLOG.events) == %s and self._startup_queries_sent == %s)' % (T0, Q0, K),
                    # otherwise: one query for all types, QU-eligible only on the very first pass ...
@@ -169,11 +206,230 @@ def build(R):
                    'forall("p:int", lambda p: implies(0 <= p and p < %s, TIMERS.events[p] == old(TIMERS.events[p])))' % T0,
                    'forall("p:int", lambda p: implies(0 <= p and p < %s, QLOG.events[p] == old(QLOG.events[p])))' % Q0])
 
+    # ---- the refresh pass -------------------------------------------------------------------------------------------
+    END = '(CLOCK.now + self._clock_resolution_millis)'
+    DUE = '(old(in_heap(self, q)) and not old(q.cancelled) and q.when_millis <= %s)' % END
+    QLATE = '(CLOCK.now + 100 * q.ttl >= q.expire_time_millis)'
+    RQ = 'self._next_scheduled_for_alias[lower(q.alias)]'
+    NB = '(CLOCK.now + self._min_time_between_queries_millis)'
+    PRT_MAIN = dict(
+               ensures=[
+                   'sq_ok(self)', OBJF, CANF % 'None',
+                   'forall("p:int", lambda p: implies(0 <= p and p < %s, TIMERS.events[p] == old(TIMERS.events[p])))' % T0,
+                   'forall("p:int", lambda p: implies(0 <= p and p < %s, QLOG.events[p] == old(QLOG.events[p])))' % Q0,
+                   # the instance was closed under the browser: the chain ends silently, nothing is touched
+                   'implies(self._zc.done, len(TIMERS.events) == %s and len(QLOG.events) == %s and len(self._query_heap) == old(len(self._query_heap)) '
+                   '   and forall("q:%s", lambda q: in_heap(self, q) == old(in_heap(self, q))))' % (T0, Q0, SQ),
+                   # keeps running: exactly one new wake-up, `delay` after this pass or at the earliest scheduled query if that is later
+                   'implies(not self._zc.done, armed(self) and self._next_run_not_before_millis == %s and len(TIMERS.events) == %s + 1 '
+                   '   and TIMERS.events[%s][1] is self and TIMERS.events[%s][2] == mid("_process_ready_types") and TIMERS.events[%s][3] is self._next_run '
+                   '   and TIMERS.events[%s][0] >= %s '
+                   '   and implies(len(self._query_heap) == 0 or self._query_heap[0].when_millis <= %s, TIMERS.events[%s][0] == %s) '
+                   '   and implies(len(self._query_heap) > 0 and self._query_heap[0].when_millis > %s, TIMERS.events[%s][0] == self._query_heap[0].when_millis))'
+                   % (NB, T0, T0, T0, T0, T0, NB, NB, T0, NB, NB, T0),
+                   # every live query that is due is asked now: one query for the set of their types (none if nothing is due) ...
+                   'implies(not self._zc.done, len(QLOG.events) == %s or len(QLOG.events) == %s + 1)' % (Q0, Q0),
+                   'implies(not self._zc.done, forall("q:%s", lambda q: implies(%s, len(QLOG.events) == %s + 1 and QLOG.events[%s][2].has(q.name))))' % (SQ, DUE, Q0, Q0),
+                   'implies(not self._zc.done and len(QLOG.events) == %s + 1, QLOG.events[%s][0] == CLOCK.now and not QLOG.events[%s][1] '
+                   '   and forall("t:str", lambda t: implies(QLOG.events[%s][2].has(t), exists("q:%s", lambda q: %s and q.name == t))))' % (Q0, Q0, Q0, Q0, SQ, DUE),
+                   # ... each leaves the schedule and is rescheduled 10 % of its TTL later unless it would have expired by then
+                   'implies(not self._zc.done, forall("q:%s", lambda q: implies(%s, not in_heap(self, q) '
+                   '   and implies(%s, not self._next_scheduled_for_alias.has(lower(q.alias))) '
+                   '   and implies(not %s, self._next_scheduled_for_alias.has(lower(q.alias)) and fresh_obj(%s) and in_heap(self, %s) and not %s.cancelled '
+                   '        and %s.when_millis == CLOCK.now + 100 * q.ttl and %s.expire_time_millis == q.expire_time_millis and %s.name == q.name '
+                   '        and %s.ttl == q.ttl and %s.alias == q.alias))))' % (SQ, DUE, QLATE, QLATE, RQ, RQ, RQ, RQ, RQ, RQ, RQ, RQ),
+                   # queries that are not due yet stay scheduled as they were; nothing that was not scheduled appears except the rescues
+                   'implies(not self._zc.done, forall("q:%s", lambda q: implies(old(in_heap(self, q)) and not old(q.cancelled) and q.when_millis > %s, '
+                   '   in_heap(self, q) and self._next_scheduled_for_alias.has(lower(q.alias)) and self._next_scheduled_for_alias[lower(q.alias)] is q)))' % (SQ, END),
+                   'implies(not self._zc.done, forall("q:%s", lambda q: implies(in_heap(self, q) and old(allocated(q)), old(in_heap(self, q)) and q.when_millis > %s)))' % (SQ, END),
+               ],
+               loops={
+                   0: Loop(inv=[
+                       'sq_ok(self)', 'next_scheduled is None', 'self._next_run is None',
+                       'len(TIMERS.events) == %s and len(QLOG.events) == %s' % (T0, Q0),
+                       'forall("q:%s", lambda q: implies(in_heap(self, q), old(in_heap(self, q))))' % SQ,
+                       # what has left the heap so far was cancelled, or live and due (then it waits in schedule_rescue)
+                       'forall("q:%s", lambda q: implies(old(in_heap(self, q)) and not in_heap(self, q), old(q.cancelled) or '
+                       '   (q.when_millis <= end_time_millis and exists("m:int", lambda m: 0 <= m and m < len(schedule_rescue) and schedule_rescue[m] is q))))' % SQ,
+                       'forall("m:int", lambda m: implies(0 <= m and m < len(schedule_rescue), schedule_rescue[m] is not None and old(allocated(schedule_rescue[m])) '
+                       '   and old(in_heap(self, schedule_rescue[m])) and not in_heap(self, schedule_rescue[m]) and not old(schedule_rescue[m].cancelled) '
+                       '   and schedule_rescue[m].when_millis <= end_time_millis and ready_types.has(schedule_rescue[m].name) '
+                       '   and not self._next_scheduled_for_alias.has(lower(schedule_rescue[m].alias))))',
+                       'forall("m:int, j:int", lambda m, j: implies(0 <= m and m < j and j < len(schedule_rescue), '
+                       '   lower(schedule_rescue[m].alias) != lower(schedule_rescue[j].alias)))',
+                       'forall("t:str", lambda t: implies(ready_types.has(t), exists("m:int", lambda m: 0 <= m and m < len(schedule_rescue) and schedule_rescue[m].name == t)))',
+                       # the still scheduled live queries keep their map entries
+                       'forall("a:str", lambda a: implies(self._next_scheduled_for_alias.has(a), old(self._next_scheduled_for_alias.has(a)) '
+                       '   and self._next_scheduled_for_alias[a] is old(self._next_scheduled_for_alias[a])))',
+                       OBJF, CANF % 'None'],
+                       modifies=['self._next_scheduled_for_alias', 'self._query_heap'],
+                       decreases='len(self._query_heap)'),
+                   1: Loop(inv=[
+                       'sq_ok(self)', 'self._next_run is None', 'len(TIMERS.events) == %s and len(QLOG.events) == %s' % (T0, Q0),
+                       'forall("p:int", lambda p: implies(0 <= p and p < %s, TIMERS.events[p] == old(TIMERS.events[p])))' % T0,
+                       'forall("h:TimerHandle", lambda h: implies(old(allocated(h)), h.cancelled == old(h.cancelled)))',
+                       'forall("m:int", lambda m: implies(_k1 <= m and m < len(_it1), not self._next_scheduled_for_alias.has(lower(_it1[m].alias))))',
+                       'list_eq(_it1, schedule_rescue)',
+                       # rescues pushed so far
+                       'forall("m:int", lambda m: implies(0 <= m and m < _k1, '
+                       '   implies(CLOCK.now + 100 * _it1[m].ttl >= _it1[m].expire_time_millis, not self._next_scheduled_for_alias.has(lower(_it1[m].alias))) '
+                       '   and implies(not (CLOCK.now + 100 * _it1[m].ttl >= _it1[m].expire_time_millis), self._next_scheduled_for_alias.has(lower(_it1[m].alias)) '
+                       '        and fresh_obj(self._next_scheduled_for_alias[lower(_it1[m].alias)]) and in_heap(self, self._next_scheduled_for_alias[lower(_it1[m].alias)]) '
+                       '        and not self._next_scheduled_for_alias[lower(_it1[m].alias)].cancelled '
+                       '        and self._next_scheduled_for_alias[lower(_it1[m].alias)].when_millis == CLOCK.now + 100 * _it1[m].ttl '
+                       '        and self._next_scheduled_for_alias[lower(_it1[m].alias)].expire_time_millis == _it1[m].expire_time_millis '
+                       '        and self._next_scheduled_for_alias[lower(_it1[m].alias)].name == _it1[m].name '
+                       '        and self._next_scheduled_for_alias[lower(_it1[m].alias)].ttl == _it1[m].ttl '
+                       '        and self._next_scheduled_for_alias[lower(_it1[m].alias)].alias == _it1[m].alias)))',
+                       # the heap: the old entries that stayed (all later than this pass), plus fresh rescue entries
+                       'forall("q:%s", lambda q: implies(in_heap(self, q) and old(allocated(q)), old(in_heap(self, q)) and q.when_millis > end_time_millis))' % SQ,
+                       'forall("q:%s", lambda q: implies(old(in_heap(self, q)) and not in_heap(self, q), old(q.cancelled) or '
+                       '   (q.when_millis <= end_time_millis and exists("m:int", lambda m: 0 <= m and m < len(schedule_rescue) and schedule_rescue[m] is q))))' % SQ,
+                       'forall("m:int", lambda m: implies(0 <= m and m < len(_it1), _it1[m] is not None and old(allocated(_it1[m])) and not in_heap(self, _it1[m])))',
+                       'forall("m:int, j:int", lambda m, j: implies(0 <= m and m < j and j < len(_it1), lower(_it1[m].alias) != lower(_it1[j].alias)))',
+                       OBJF, CANF % 'None'],
+                       modifies=['self._next_scheduled_for_alias', 'self._query_heap', 'self._next_run', 'TIMERS.events', 'TimerHandle.cancelled[*]']),
+               }
+)
+
+    TFR = ['self._next_run is None', 'len(TIMERS.events) == %s' % T0,
+           'forall("p:int", lambda p: implies(0 <= p and p < %s, TIMERS.events[p] == old(TIMERS.events[p])))' % T0,
+           'forall("h:TimerHandle", lambda h: implies(old(allocated(h)), h.cancelled == old(h.cancelled)))']
+    PRT_VIEWS = [
+        View('main', loops=PRT_MAIN['loops'], ensures=PRT_MAIN['ensures']),
+        # the single-chain invariant only needs the timer log and the handle flags: proved in a view of its own
+        View('timers', loops={0: Loop(inv=list(TFR), modifies=['self._next_scheduled_for_alias', 'self._query_heap']),
+                              1: Loop(inv=list(TFR), modifies=['self._next_scheduled_for_alias', 'self._query_heap', 'self._next_run',
+                                                               'TIMERS.events', 'TimerHandle.cancelled[*]'])},
+             ensures=['implies(not self._zc.done and old(solo(self)) and old(fired(self)), solo(self))'], only_loops=True)]
+    R.contract(B, 'QueryScheduler._process_ready_types', PROP,
+               requires=['self._loop is not None and self._zc is not None', 'sq_ok(self)', 'self._startup_queries_sent >= 4'],
+               modifies=['self._next_run', 'self._next_run_not_before_millis', 'self._next_scheduled_for_alias', 'self._query_heap',
+                         'TIMERS.events', 'TimerHandle.cancelled[*]', 'QLOG.events'],
+               views=PRT_VIEWS)
+
+
+def install_generators(R):
+    """Concrete inputs for the bounded cross-check / replay search: a REAL QueryScheduler on the recording loop of
+    contracts/loop_model (timers, clock) with the query log attached to async_send_ready_queries."""
+    import heapq
+    ALIASES = ['a._x._tcp.local.', 'A._x._tcp.local.', 'b._x._tcp.local.', 'B._x._tcp.local.', 'c._x._tcp.local.', 'd._y._tcp.local.']
+
+    def mk(g, mode=None, heap_max=4):
+        from zeroconf._services.browser import QueryScheduler, _ScheduledPTRQuery
+        r = g.rng
+        now = r.choice([100000.0, 1000000.0])
+        clock, timers, sent, loop = loop_model.concrete_world(now)
+        qlog = loop_model.CObj()
+        qlog.events = []
+
+        class QS(QueryScheduler):
+            __slots__ = ()
+
+            def async_send_ready_queries(self, first_request, now_millis, ready_types):
+                qlog.events.append((now_millis, first_request, set(ready_types)))
+        zc = loop_model.CObj()
+        zc.done = r.random() < 0.12
+        delay = r.choice([1000, 10000, 60000])
+        s = QS(zc, {'_x._tcp.local.', '_y._tcp.local.'}, None, 5353, True, delay, (20, 120), None)
+        s._clock_resolution_millis = r.choice([0.0, 1.0])
+        used = set()
+        for _ in range(r.randint(0, heap_max)):
+            al = r.choice(ALIASES)
+            ttl = r.choice([1125, 1200, 4500])
+            when = now + r.choice([-5000.0, -1.0, 0.0, 1.0, 2.0, 500.0, 5000.0, 900000.0])
+            e = _ScheduledPTRQuery(al, al.split('.', 1)[1], ttl, when + r.choice([50000.0, 250.0 * ttl]), when)
+            if al.lower() in used or r.random() < 0.25:
+                e.cancelled = True
+            else:
+                used.add(al.lower())
+                s._next_scheduled_for_alias[al.lower()] = e
+            heapq.heappush(s._query_heap, e)
+        mode = mode or r.choice(['idle', 'startup', 'refresh', 'refresh', 'refresh'])
+        if mode != 'idle':
+            s._loop = loop
+        # some spent / cancelled wake-ups of this scheduler from the past
+        for _ in range(r.randint(0, 2)):
+            h = loop.call_at((now - r.choice([1.0, 5000.0])) / 1000.0, s._process_ready_types)
+            if r.random() < 0.5:
+                h.cancel()
+        if mode == 'startup':
+            s._startup_queries_sent = r.choice([0, 1, 2, 3])
+            s._next_run = loop.call_at((now + r.choice([-1.0, 0.0, 50.0, 1000.0])) / 1000.0, s._process_startup_queries)
+        elif mode == 'refresh':
+            s._startup_queries_sent = 4
+            nb = now + r.choice([-20000.0, -1.0, 0.0, 5000.0, float(delay)])
+            s._next_run_not_before_millis = nb
+            head = s._query_heap[0].when_millis if s._query_heap else None
+            due = max(head, nb) if (head is not None and r.random() < 0.8) else nb
+            if r.random() < 0.15:
+                due = max(due, now) + 7777.0        # an insufficient wake-up: `armed` is false, the implications are vacuous
+            s._next_run = loop.call_at(due / 1000.0, s._process_ready_types)
+        env = {'CLOCK': clock, 'TIMERS': timers, 'SENT': sent, 'QLOG': qlog}
+        return s, env, now
+
+    def ptr(g, now, alias=None):
+        from zeroconf._dns import DNSPointer
+        from zeroconf import const
+        r = g.rng
+        al = alias or r.choice(ALIASES)
+        return DNSPointer(al.split('.', 1)[1], const._TYPE_PTR, const._CLASS_IN, r.choice([1125, 1200, 4500]), al,
+                          created=now - r.choice([0.0, 1000.0, 800000.0, 900000.0]))
+
+    def g_sq(g):
+        from zeroconf._services.browser import _ScheduledPTRQuery
+        s, env, now = mk(g)
+        al = g.rng.choice(ALIASES)
+        when = now + g.rng.choice([-1.0, 0.0, 1.0, 400.0, 4000.0, 850000.0])
+        q = _ScheduledPTRQuery(al, al.split('.', 1)[1], 1200, when + 300000.0, when)
+        return {'self': s, 'scheduled_query': q, '__env__': env, '__clock__': now}
+    R.generators[(B, 'QueryScheduler._schedule_ptr_query')] = g_sq
+
+    def g_refresh(g):
+        s, env, now = mk(g)
+        p = ptr(g, now)
+        return {'self': s, 'pointer': p, 'expire_time_millis': p.created + 1000.0 * p.ttl,
+                'refresh_time_millis': p.created + 750.0 * p.ttl, '__env__': env, '__clock__': now}
+    R.generators[(B, 'QueryScheduler._schedule_ptr_refresh')] = g_refresh
+
+    def g_ptr(g):
+        s, env, now = mk(g)
+        return {'self': s, 'pointer': ptr(g, now), '__env__': env, '__clock__': now}
+    R.generators[(B, 'QueryScheduler.cancel_ptr_refresh')] = g_ptr
+    R.generators[(B, 'QueryScheduler.reschedule_ptr_first_refresh')] = g_ptr
+
+    def g_rescue(g):
+        from zeroconf._services.browser import _ScheduledPTRQuery
+        s, env, now = mk(g)
+        al = g.rng.choice(ALIASES)
+        ttl = g.rng.choice([1125, 4500])
+        q = _ScheduledPTRQuery(al, al.split('.', 1)[1], ttl, now + g.rng.choice([100.0 * ttl - 1, 100.0 * ttl, 100.0 * ttl + 1, 250.0 * ttl]), now - 1.0)
+        return {'self': s, 'query': q, 'now_millis': now, 'additional_percentage': 0.1, '__env__': env, '__clock__': now}
+    R.generators[(B, 'QueryScheduler.schedule_rescue_query')] = g_rescue
+
+    def g_start(g):
+        s, env, now = mk(g, mode='idle')
+        return {'self': s, 'loop': loop_model.CLoop(env['CLOCK'], env['TIMERS']), '__env__': env, '__clock__': now}
+    R.generators[(B, 'QueryScheduler.start')] = g_start
+
+    def g_self(mode):
+        def gen(g):
+            s, env, now = mk(g, mode=mode)
+            if s._next_run is not None and g.rng.random() < 0.8:
+                # the wake-up fires: the clock has reached its due time
+                due = [e for e in env['TIMERS'].events if e[3] is s._next_run][0][0]
+                now = max(now, due) + g.rng.choice([0.0, 3.0])
+                env['CLOCK'].now = now
+            return {'self': s, '__env__': env, '__clock__': now}
+        return gen
+    R.generators[(B, 'QueryScheduler.stop')] = g_self(None)
+    R.generators[(B, 'QueryScheduler._process_startup_queries')] = g_self('startup')
+    R.generators[(B, 'QueryScheduler._process_ready_types')] = g_self('refresh')
+
 
 def configure(ctx, R):
     records.configure(ctx)
+    install_generators(R)
 
 
-NO_CONCRETE = {'QueryScheduler._schedule_ptr_query', 'QueryScheduler._schedule_ptr_refresh', 'QueryScheduler.cancel_ptr_refresh',
-               'QueryScheduler.reschedule_ptr_first_refresh', 'QueryScheduler.schedule_rescue_query', 'QueryScheduler.start',
-               'QueryScheduler.stop', 'QueryScheduler._process_startup_queries'}
+NO_CONCRETE = set()
